@@ -597,6 +597,7 @@ Proof.
   - eapply InvS_frame; eauto; [fr_auto|apply RC_host_action|apply RK_host_action].
   - eapply InvS_frame; eauto; [fr_auto|apply RC_host_action|apply RK_host_action].
   - eapply InvS_frame; eauto; [fr_auto|apply RC_host_action|apply RK_host_action].
+  - eapply InvS_frame; eauto; [fr_auto|apply RC_host_action|apply RK_host_action].
   - eapply InvS_frame; eauto; [fr_auto|apply RC_cleanup|apply RK_cleanup].
 Qed.
 
@@ -613,6 +614,7 @@ Proof.
     destruct (hostr_poll_facts _ _ _ _ _ _ _ HP (is_hk _ I)) as (F & RC & RK & K & FF).
     rewrite udrops_do_callback; [now apply Frame_udrops|lia|].
     eapply InvLin_frame; [exact F|apply I].
+  - apply Frame_udrops. fr_auto.
   - apply Frame_udrops. fr_auto.
   - apply Frame_udrops. fr_auto.
   - apply Frame_udrops. fr_auto.
